@@ -343,7 +343,8 @@ def validation_error_propagated(exc, vcall):
 # ---------------------------------------------------------------------------------------
 
 OUTPUT_SHAPES = ["f(a)", "f(a,b=_D)", "m(self,a)", "async f(a)", "async m(self,a)"]
-OUT_KINDS = {"none": ["any"], "callable": ["any"], "int": ["tuple", "list"], "str": ["dict"]}
+OUT_KINDS = {"none": ["any"], "callable": ["any"], "int": ["tuple", "list", "namedtuple"], "str": ["dict"]}
+_NT = __import__("collections").namedtuple("Output", "first second")
 
 
 class OutFactory:
@@ -359,6 +360,8 @@ class OutFactory:
             v = SAny(name=name)
         elif self.kind == "tuple":
             v = tuple(items)
+        elif self.kind == "namedtuple":
+            v = _NT(*items)  # "returns exactly what the undecorated function would": a named tuple stays one (its fields are how callers read it)
         elif self.kind == "list":
             v = ListObj(items)
         else:
@@ -372,7 +375,9 @@ def output_reassembled(result, out, items, kind, getter, validated):
     same container kind, same length / keys, every other element unchanged"""
     if kind == "any":
         return result is validated
-    if kind == "tuple":
+    if kind == "namedtuple" and type(result) is not _NT:
+        return False
+    if kind in ("tuple", "namedtuple"):
         return isinstance(result, tuple) and len(result) == 2 and all(
             (result[i] is validated) if i == getter else (result[i] is items[i]) for i in range(2))
     if kind == "list":
